@@ -60,6 +60,10 @@ func VerifH_serveHTTP_status() {
 			}
 		}
 		srv.err = status.Error(code, msg)
+		if vfBool() {
+			srv.sendHdrFirst = true // the handler sends its headers explicitly before failing
+			vfCover("header-then-error")
+		}
 	}
 	h := http.Header{"Accept": []string{"application/x"}}
 	if twirp {
